@@ -278,13 +278,13 @@ impl SchedSim {
         ctx.log.bytes(&out.choices);
         ctx.log.u64(reg.ops_done);
         // Remember the schedule actually taken so a violation can be replayed exactly.
-        LAST_SCHEDULE.with(|l| *l.borrow_mut() = out.choices.clone());
+        *LAST_SCHEDULE.lock().unwrap_or_else(|e| e.into_inner()) = out.choices.clone();
     }
 }
 
-thread_local! {
-    static LAST_SCHEDULE: std::cell::RefCell<Vec<u8>> = const { std::cell::RefCell::new(Vec::new()) };
-}
+/// Schedule taken by the most recent execution in this process (runs execute one
+/// at a time, each on its own thread, so this is a plain global).
+static LAST_SCHEDULE: Mutex<Vec<u8>> = Mutex::new(Vec::new());
 
 fn pick_filled(r: &mut Rng, filled: &[bool; SLOTS]) -> u8 {
     let idx: Vec<u8> = (0..SLOTS as u8).filter(|i| filled[*i as usize]).collect();
@@ -456,7 +456,7 @@ impl Engine for SchedSim {
             Ok(t) => t,
             Err(_) => return trace.clone(),
         };
-        t.schedule = LAST_SCHEDULE.with(|l| l.borrow().clone());
+        t.schedule = LAST_SCHEDULE.lock().unwrap_or_else(|e| e.into_inner()).clone();
         t.strategy = Strategy::Replay;
         serde_json::to_value(&t).unwrap()
     }
